@@ -158,6 +158,11 @@ func getContourPoints(sg tables.SimpleGlyph) []contourPoint {
 
 	points := make([]contourPoint, len(sg.Points))
 	for _, end := range sg.EndPtsOfContours {
+		// the number of points is given by the last end point:
+		// guard against invalid (not increasing) indices
+		if int(end) >= len(points) {
+			continue
+		}
 		points[end].isEndPoint = true
 	}
 	for i, p := range sg.Points {
